@@ -1,13 +1,13 @@
 /*@unit
-properties = ["C03", "C06"]
+properties = ["C03", "C06", "C01", "C02", "C04"]
 mode = "dfcc"
 enforce = "Legalizer_exportPlacement"
 timeout = 600
 function = "Legalizer::exportPlacement, DetailedPlacement::exportPlacement, GlobalPlacer::exportPlacement(Circuit&, x, y): the only functions of the placement stages that write into a Circuit"
 variants = [
-  {name = "legalizer", enforce = "Legalizer_exportPlacement", defines = ["H_LEG"]},
-  {name = "detailed", enforce = "DetailedPlacement_exportPlacement", defines = ["H_DET"]},
-  {name = "global", safety_tier = "thorough", enforce = "GlobalPlacer_exportPlacement", defines = ["H_GLOB"], replace = ["Circuit_placedWidth", "Circuit_placedHeight"], solver = "kissat"},
+  {name = "legalizer", properties = ["C03", "C01", "C04"], enforce = "Legalizer_exportPlacement", defines = ["H_LEG"]},
+  {name = "detailed", properties = ["C03", "C02", "C04"], enforce = "DetailedPlacement_exportPlacement", defines = ["H_DET"]},
+  {name = "global", properties = ["C03", "C06"], safety_tier = "thorough", enforce = "GlobalPlacer_exportPlacement", defines = ["H_GLOB"], replace = ["Circuit_placedWidth", "Circuit_placedHeight"], solver = "kissat"},
 ]
 assumptions = ["frame: the assigns clauses name only cellX_/cellY_/cellOrientation_ contents (global: only cellX_/cellY_), so a write to sizes, flags, polarities, nets, offsets, weights or rows inside these functions fails an assigns obligation; that no OTHER function of the stages writes a Circuit is the call-order unit (c10_order) plus const-correctness of the remaining code (compiler fact, not proved here)",
                "by-value copies of const vectors (cellLegalX() etc.) are lowered to aliases"]
@@ -129,30 +129,38 @@ within = 'class DetailedPlacement\b'
 head = 'CellOrientation cellOrientation\(int c\) const'
 this_members = {file = "src/place_detailed/detailed_placement.hpp", class = "DetailedPlacement"}
 @*/
+/* the polarity of a placement cell is not needed by the repository text; if an edited body reads it, it is an arbitrary value */
+CellRowPolarity nondet_polarity(void);
+#define DetailedPlacement_cellRowPolarity(t, c) (nondet_polarity())
+int g_d, g_dc;   /* ghost cell of the detailed placement and the circuit cell it stands for */
 void DetailedPlacement_exportPlacement(DetailedPlacement *this, Circuit *circuit_p)
 __CPROVER_requires(verif_exc == 0 && 0 <= n && n <= NMAX && 0 <= nd && nd <= NMAX && __CPROVER_is_fresh(this, sizeof(*this)) && __CPROVER_is_fresh(circuit_p, sizeof(Circuit)))
 __CPROVER_requires(CFRESH(circuit_p, cellWidth_, n, int) && CFRESH(circuit_p, cellX_, n, int) && CFRESH(circuit_p, cellY_, n, int) && CFRESH(circuit_p, cellOrientation_, n, CellOrientation) && CFRESH(circuit_p, cellIsFixed_, n, bool))
 __CPROVER_requires(CFRESH(this, cellWidth_, nd, int) && CFRESH(this, cellX_, nd, int) && CFRESH(this, cellY_, nd, int) && CFRESH(this, cellOrientation_, nd, CellOrientation) && CFRESH(this, cellIndex_, nd, int))
 __CPROVER_requires(0 <= g && g < n && g_oldx == circuit_p->cellX_[g] && g_oldy == circuit_p->cellY_[g] && g_oldo == circuit_p->cellOrientation_[g])
+__CPROVER_requires(0 <= g_d && (nd == 0 || (g_d < nd && g_dc == this->cellIndex_[g_d] && (g_dc == g || g_dc == -1))))   /* the ghost placement cell stands for the ghost circuit cell, or for none */
 __CPROVER_ensures(circuit_p->cellIsFixed_[g] ==> (circuit_p->cellX_[g] == g_oldx && circuit_p->cellY_[g] == g_oldy && circuit_p->cellOrientation_[g] == g_oldo))
+/* C02/C04: what detailed placement exposes for a movable cell is exactly its state in the placement: position AND orientation */
+__CPROVER_ensures((0 <= g_d && g_d < nd && g_dc == g && !circuit_p->cellIsFixed_[g]) ==> (circuit_p->cellX_[g] == this->cellX_[g_d] && circuit_p->cellY_[g] == this->cellY_[g_d] && circuit_p->cellOrientation_[g] == this->cellOrientation_[g_d]))
 __CPROVER_assigns(verif_exc, __CPROVER_object_whole(circuit_p->cellX_), __CPROVER_object_whole(circuit_p->cellY_), __CPROVER_object_whole(circuit_p->cellOrientation_))
 /*@extract
 file = "src/place_detailed/detailed_placement.cpp"
 head = 'void DetailedPlacement::exportPlacement\(Circuit &circuit\)'
 nloops = 1
 this_members = {file = "src/place_detailed/detailed_placement.hpp", class = "DetailedPlacement"}
-rewrites = [['\bcircuit\.isFixed\(', 'Circuit_isFixed(circuit_p, ', '1+'], ['= cellX\(', '= DetailedPlacement_cellX(this, ', '1'], ['= cellY\(', '= DetailedPlacement_cellY(this, ', '1'], ['= cellOrientation\(', '= DetailedPlacement_cellOrientation(this, ', '1']]
+rewrites = [['\bcircuit\.isFixed\(', 'Circuit_isFixed(circuit_p, ', '1+'], ['= cellX\(', '= DetailedPlacement_cellX(this, ', '1'], ['= cellY\(', '= DetailedPlacement_cellY(this, ', '1'], ['= cellRowPolarity\(', '= DetailedPlacement_cellRowPolarity(this, ', '*'], ['= cellOrientation\(', '= DetailedPlacement_cellOrientation(this, ', '1']]
 [[loops]]
 ordinal = 1
 contract = '''
 __CPROVER_assigns(i, __CPROVER_object_whole(circuit_p->cellX_), __CPROVER_object_whole(circuit_p->cellY_), __CPROVER_object_whole(circuit_p->cellOrientation_))
 __CPROVER_loop_invariant(0 <= i && i <= nd)
 __CPROVER_loop_invariant(circuit_p->cellIsFixed_[g] ==> (circuit_p->cellX_[g] == g_oldx && circuit_p->cellY_[g] == g_oldy && circuit_p->cellOrientation_[g] == g_oldo))
+__CPROVER_loop_invariant((0 <= g_d && g_d < i && g_dc == g && !circuit_p->cellIsFixed_[g]) ==> (circuit_p->cellX_[g] == this->cellX_[g_d] && circuit_p->cellY_[g] == this->cellY_[g_d] && circuit_p->cellOrientation_[g] == this->cellOrientation_[g_d]))
 __CPROVER_decreases(nd - i)
 '''
 [[ghosts]]
 after = 'int cell = this->cellIndex_\[i\];'
-text = '''__CPROVER_assume(cell < n); /* INSTANTIATE cellIndex_in_range(i): established by DetailedPlacement::fromIspdCircuit (indices 0..nbCells-1 or -1) */'''
+text = '''__CPROVER_assume(cell < n && (i == g_d || g_dc != g || cell != g)); /* INSTANTIATE cellIndex_in_range(i) and injectivity of cellIndex_ on real cells: established by DetailedPlacement::fromIspdCircuit (indices 0..nbCells-1, each once, or -1) */'''
 @*/
 #undef nbCells
 #endif
